@@ -29,13 +29,64 @@ import (
 	zv "github.com/celestiaorg/celestia-node/zzverif"
 )
 
-const c08CacheHeader = `From Coq Require Import List ZArith NArith.
+// The case terms avoid numerals, pair notations and scope delimiters: every number is a constant defined once in the
+// header and every pair is built by a helper function (elaborating the literal notations costs Coq far more time than
+// evaluating the model on the case).
+var c08CacheHeader = func() string {
+	var sb strings.Builder
+	sb.WriteString(`From Coq Require Import List ZArith NArith.
 From CN Require Import Store.CacheRef.
 Import ListNotations.
 Open Scope N_scope.
 Definition sn (l : list (N * nat)) (e : list (Z * bool * nat)) : option snapshot := Some (l, e).
 Definition no : option snapshot := None.
-`
+Definition lp (h : N) (e : nat) : N * nat := (h, e).
+Definition en (r : Z) (c : bool) (k : nat) : Z * bool * nat := (r, c, k).
+Definition q (e : ev2) (o : option snapshot) : ev2 * option snapshot := (e, o).
+Definition cc (cap n : nat) (l : list (ev2 * option snapshot)) : cache_case := (cap, n, l).
+`)
+	for i := 0; i < c08NatConsts; i++ {
+		fmt.Fprintf(&sb, "Definition n%d := %d%%nat.\n", i, i)
+	}
+	for i := 0; i < c08ZConsts; i++ {
+		fmt.Fprintf(&sb, "Definition z%d := %d%%Z.\n", i, i)
+	}
+	for _, h := range c08Heights {
+		fmt.Fprintf(&sb, "Definition h%d := %d%%N.\n", h, h)
+	}
+	return sb.String()
+}()
+
+const (
+	c08NatConsts = 128
+	c08ZConsts   = 16
+)
+
+// three heights on one lock stripe of the cache and one beside
+var c08Heights = []uint64{7, 7 + 256, 7 + 512, 8}
+
+func c08Nat(i int) string {
+	if i >= 0 && i < c08NatConsts {
+		return fmt.Sprintf("n%d", i)
+	}
+	return fmt.Sprintf("%d%%nat", i)
+}
+
+func c08Z(i int64) string {
+	if i >= 0 && i < c08ZConsts {
+		return fmt.Sprintf("z%d", i)
+	}
+	return zv.Z(i)
+}
+
+func c08H(h uint64) string {
+	for _, x := range c08Heights {
+		if x == h {
+			return fmt.Sprintf("h%d", h)
+		}
+	}
+	return zv.N(h)
+}
 
 type c08Mock struct {
 	NoopFile
@@ -139,10 +190,10 @@ func (r *c08Run) peek(h uint64) (int, bool) {
 func (r *c08Run) snapshot() string {
 	var l, e []string
 	for _, p := range r.pairs() {
-		l = append(l, fmt.Sprintf("(%d, %d%%nat)", p[0], p[1]))
+		l = append(l, fmt.Sprintf("lp %s %s", c08H(p[0]), c08Nat(int(p[1]))))
 	}
 	for i, a := range r.ents {
-		e = append(e, fmt.Sprintf("(%d%%Z, %s, %d%%nat)", a.refs.Load(), zv.Bool(r.isClosed(a)), r.mocks[i].closes.Load()))
+		e = append(e, fmt.Sprintf("en %s %s %s", c08Z(int64(a.refs.Load())), zv.Bool(r.isClosed(a)), c08Nat(int(r.mocks[i].closes.Load()))))
 	}
 	return "(sn [" + strings.Join(l, "; ") + "] [" + strings.Join(e, "; ") + "])"
 }
@@ -208,8 +259,8 @@ func (r *c08Run) settle() {
 				r.violation("remove-hangs", r.failed)
 				return
 			}
-			r.ev(fmt.Sprintf("CStep %d%%nat true", t)) // the wait ends, Close()
-			r.ev(fmt.Sprintf("CStep %d%%nat true", t)) // lru.Remove
+			r.ev(fmt.Sprintf("CStep %s true", c08Nat(t))) // the wait ends, Close()
+			r.ev(fmt.Sprintf("CStep %s true", c08Nat(t))) // lru.Remove
 			r.afterLruRemove(before, s.h)
 			s.state = 0
 			changed = true
@@ -220,7 +271,7 @@ func (r *c08Run) settle() {
 			case 0:
 				if r.closed[c.ent] {
 					// somebody else closes this entry: the goroutine returns at once
-					r.ev(fmt.Sprintf("CStep %d%%nat true", c.idx))
+					r.ev(fmt.Sprintf("CStep %s true", c08Nat(c.idx)))
 					c.phase = 2
 				} else {
 					if !c08WaitFor(func() bool { return r.isClosed(a) }) {
@@ -229,7 +280,7 @@ func (r *c08Run) settle() {
 						return
 					}
 					r.closed[c.ent] = true
-					r.ev(fmt.Sprintf("CStep %d%%nat true", c.idx))
+					r.ev(fmt.Sprintf("CStep %s true", c08Nat(c.idx)))
 					c.phase = 1
 				}
 				changed = true
@@ -240,7 +291,7 @@ func (r *c08Run) settle() {
 						r.violation("evict-hangs", r.failed)
 						return
 					}
-					r.ev(fmt.Sprintf("CStep %d%%nat true", c.idx))
+					r.ev(fmt.Sprintf("CStep %s true", c08Nat(c.idx)))
 					c.phase = 2
 					changed = true
 				}
@@ -272,10 +323,10 @@ func (r *c08Run) loader(ok bool) OpenAccessorFn {
 func (r *c08Run) opGet(t int, h uint64) {
 	s := r.slots[t]
 	ent, present := r.peek(h)
-	r.ev(fmt.Sprintf("CGet %d%%nat %d", t, h))
+	r.ev(fmt.Sprintf("CGet %s %s", c08Nat(t), c08H(h)))
 	acc, err := r.bc.Get(h)
 	if present {
-		r.ev(fmt.Sprintf("CStep %d%%nat true", t))
+		r.ev(fmt.Sprintf("CStep %s true", c08Nat(t)))
 	}
 	if err == nil {
 		if !present || r.closed[ent] {
@@ -294,11 +345,11 @@ func (r *c08Run) opGetOrLoad(t int, h uint64, ok bool) {
 	s := r.slots[t]
 	ent, present := r.peek(h)
 	before := r.pairs()
-	r.ev(fmt.Sprintf("CGol %d%%nat %d", t, h))
+	r.ev(fmt.Sprintf("CGol %s %s", c08Nat(t), c08H(h)))
 	nMocks := len(r.mocks)
 	acc, err := r.bc.GetOrLoad(context.Background(), h, r.loader(ok))
 	if present {
-		r.ev(fmt.Sprintf("CStep %d%%nat true", t)) // addRef
+		r.ev(fmt.Sprintf("CStep %s true", c08Nat(t))) // addRef
 		if !r.closed[ent] {
 			if err != nil || len(r.mocks) != nMocks {
 				r.failed = "GetOrLoad did not reuse an open entry"
@@ -309,7 +360,7 @@ func (r *c08Run) opGetOrLoad(t int, h uint64, ok bool) {
 		}
 		r.nReplace++
 	}
-	r.ev(fmt.Sprintf("CStep %d%%nat %s", t, zv.Bool(ok))) // load, addRef, lru.Add
+	r.ev(fmt.Sprintf("CStep %s %s", c08Nat(t), zv.Bool(ok))) // load, addRef, lru.Add
 	if !ok {
 		r.nLoadFail++
 		if err == nil {
@@ -347,7 +398,7 @@ func (r *c08Run) opGetOrLoad(t int, h uint64, ok bool) {
 func (r *c08Run) opRemove(t int, h uint64) {
 	s := r.slots[t]
 	ent, present := r.peek(h)
-	r.ev(fmt.Sprintf("CRm %d%%nat %d", t, h))
+	r.ev(fmt.Sprintf("CRm %s %s", c08Nat(t), c08H(h)))
 	if !present {
 		if err := r.bc.Remove(h); err != nil {
 			r.failed = fmt.Sprintf("Remove: %v", err)
@@ -361,12 +412,12 @@ func (r *c08Run) opRemove(t int, h uint64) {
 			r.failed = fmt.Sprintf("Remove: %v", err)
 			return
 		}
-		r.ev(fmt.Sprintf("CStep %d%%nat true", t)) // close (1)
+		r.ev(fmt.Sprintf("CStep %s true", c08Nat(t))) // close (1)
 		if !r.closed[ent] {
 			r.closed[ent] = true
-			r.ev(fmt.Sprintf("CStep %d%%nat true", t)) // the wait is over at once, Close()
+			r.ev(fmt.Sprintf("CStep %s true", c08Nat(t))) // the wait is over at once, Close()
 		}
-		r.ev(fmt.Sprintf("CStep %d%%nat true", t)) // lru.Remove
+		r.ev(fmt.Sprintf("CStep %s true", c08Nat(t))) // lru.Remove
 		r.afterLruRemove(before, h)
 		return
 	}
@@ -379,13 +430,13 @@ func (r *c08Run) opRemove(t int, h uint64) {
 		return
 	}
 	r.closed[ent] = true
-	r.ev(fmt.Sprintf("CStep %d%%nat true", t)) // close (1)
+	r.ev(fmt.Sprintf("CStep %s true", c08Nat(t))) // close (1)
 	r.nBlocked++
 }
 
 func (r *c08Run) opRelease(t int) {
 	s := r.slots[t]
-	r.ev(fmt.Sprintf("CRelease %d%%nat", t))
+	r.ev(fmt.Sprintf("CRelease %s", c08Nat(t)))
 	_ = s.rc.Close()
 	_ = s.rc.Close() // a second Close of the same refCloser must not release twice
 	s.state, s.rc = 0, nil
@@ -467,34 +518,37 @@ func c08RunScript(t *testing.T, zr *zv.Run, seed uint64, cap, n, nops int, heigh
 func TestVerifC08Cache(t *testing.T) {
 	r := zv.Start(t, "C08")
 	defer r.Finish()
-	g := r.Group("cache", c08CacheHeader, "cache_case", "CN.Store.CacheRef.mismatches")
+	// several groups = several case files, which the driver evaluates in parallel
+	var groups []*zv.Group
+	for i := 0; i < r.N(3, 12); i++ {
+		groups = append(groups, r.Group(fmt.Sprintf("cache%d", i), c08CacheHeader, "cache_case", "CN.Store.CacheRef.mismatches"))
+	}
 
 	var rep c08Script
 	if r.ReplayInput(&rep) && rep.N > 0 {
-		run := c08RunScript(t, r, rep.Seed, rep.Cap, rep.N, len(rep.Ops)+8, []uint64{7, 7 + 256, 7 + 512, 8})
+		run := c08RunScript(t, r, rep.Seed, rep.Cap, rep.N, len(rep.Ops)+8, c08Heights)
 		t.Logf("replayed cache script seed=%d cap=%d: %s", rep.Seed, rep.Cap, run.failed)
 	}
 
 	root := r.Rand()
-	ncases := r.N(360, 6000)
-	heights := []uint64{7, 7 + 256, 7 + 512, 8} // three heights on one lock stripe of the cache and one beside
+	ncases := r.N(360, 4800)
 	for i := 0; i < ncases; i++ {
 		seed := root.U64()
 		cap := 1 + i%3
 		n := 3 + i%3
 		nops := 12 + int(seed%28)
-		run := c08RunScript(t, r, seed, cap, n, nops, heights)
+		run := c08RunScript(t, r, seed, cap, n, nops, c08Heights)
 		if run.failed != "" {
 			r.Count("cache_script", "aborted")
 			r.Violation("cache-script-aborted", run.failed, run.script)
 			continue
 		}
-		term := fmt.Sprintf("(%d%%nat, %d%%nat, [%s])", cap, n, strings.Join(run.script.Steps, ";\n    "))
+		term := fmt.Sprintf("cc %s %s [%s]", c08Nat(cap), c08Nat(n), strings.Join(run.script.Steps, ";\n    "))
 		key := ""
 		if run.nBlocked > 0 && (run.nEvict > 0 || run.nReplace > 0) {
 			key = fmt.Sprint(seed)
 		}
-		g.Case(term, run.script, key)
+		groups[i%len(groups)].Case(term, run.script, key)
 		r.Count("cache_script", "ok")
 		r.Count("cache_cap", fmt.Sprint(cap))
 		for k, v := range map[string]int{"blocked_remove": run.nBlocked, "eviction": run.nEvict, "replace_closed": run.nReplace,
